@@ -338,3 +338,24 @@ Theorem C20_sample_times_grid : forall rate durs ts lens, sample_times rate durs
   length ts = Z.to_nat n /\ forall k, (k < Z.to_nat n)%nat -> (nth k ts 0%Q == grid_time rate (Z.of_nat k))%Q.
 Proof. exact sample_times_grid. Qed.
 Print Assumptions C20_sample_times_grid.
+
+(* ---- round 4: time_windows_to_samples on ARBITRARY binary64 begins / lengths / rates (decimal stream CWinF).  The model
+        conv64 rounds the product to binary64 exactly as both variants do (check_corr is exact also on this stream); the
+        two variants agree for all inputs; the result meets the tolerance specification Spec.valid_conv_tol (begin within
+        1/2 + 2^-30 of the exact product; length L with L <= l * sr + 2^-30 and l * sr - 2^-30 < L + 1) for products up to
+        2^22 samples; with representable products it is the exact conversion of the round-1 theorems ---- *)
+Require Import QV.C20.ProofsWinF.
+Theorem C20_window_float_variants_equal : forall sr ws, tw_loop64 sr ws = tw_numpy64 sr ws.
+Proof. exact tw_variants64. Qed.
+Print Assumptions C20_window_float_variants_equal.
+
+Theorem C20_window_float_exact_inputs : forall sr (w : Q * Q),
+  (b64 (fst w * sr) == fst w * sr)%Q -> (b64 (snd w * sr) == snd w * sr)%Q -> conv64 sr w = conv sr w.
+Proof. exact conv64_exact. Qed.
+Print Assumptions C20_window_float_exact_inputs.
+
+Theorem C20_window_float_within_tolerance : forall sr (w : Q * Q),
+  (0 <= fst w * sr <= inject_Z (2 ^ 22))%Q -> (0 <= snd w * sr <= inject_Z (2 ^ 22))%Q ->
+  valid_conv_tol sr w (conv64 sr w) = true.
+Proof. exact conv64_within_tolerance. Qed.
+Print Assumptions C20_window_float_within_tolerance.
